@@ -28,11 +28,11 @@ Fixpoint nodupb (l : list N) : bool := match l with [] => true | x :: t => negb 
 Definition subsetb (a b : list N) : bool := forallb (fun x => memN x b) a.
 
 (* ---------- writer behaviours the harness implements ---------- *)
-Inductive wbeh := WOk | WFail0 | WFailHalf | WShortHalf | WShort0 | WOver.
+Inductive wbeh := WOk | WFail0 | WFailHalf | WFailFull | WShortHalf | WShort0 | WOver.
 Definition writer_of (b : wbeh) : writer := fun buf =>
   let n := lenN buf in
   match b with
-  | WOk => (n, false) | WFail0 => (0%N, true) | WFailHalf => (N.div n 2, true)
+  | WOk => (n, false) | WFail0 => (0%N, true) | WFailHalf => (N.div n 2, true) | WFailFull => (n, true)
   | WShortHalf => (N.div n 2, false) | WShort0 => (0%N, false) | WOver => (N.succ n, false)
   end.
 
